@@ -115,8 +115,9 @@ pub fn run(ctx: &mut Ctx) {
     // phase 3: sampled large counts around powers of two
     let big = ctx.budget(48, 400);
     ctx.phase("large-counts", big, |ctx, k| {
-        let maxpow = if ctx.quick() { 15 } else { 17 };
-        let p = 1usize << ctx.rng.gen_range(9..=maxpow);
+        let maxpow = if ctx.quick() { 16 } else { 17 };
+        // the first cases pin the 2^16 neighbourhood (a level index of 16), the rest are random
+        let p = if k < 4 { 1usize << 16 } else { 1usize << ctx.rng.gen_range(9..=maxpow) };
         let n = match k % 4 {
             0 => p - 1,
             1 => p,
